@@ -8,6 +8,9 @@
                                           /verif), expect VIOLATION for the right
                                           property within the quick budget, delete
                                           the copy
+  check selftest soundness [--only X]     apply property-PRESERVING refactors to a scratch
+                                          copy (they must pass the repository's tests) and
+                                          expect every check to stay quiet
 """
 import argparse
 import json
@@ -74,6 +77,52 @@ MUTATIONS = [
     ('user-layer-written-back', 'C20', 'emmet/config.py',
      "    result.update(user_config.get(key, empty))\n",
      "    result.update(user_config.get(key, empty))\n    if key == 'variables' and key in user_config and syntax_override.get(key):\n        user_config[key].update(syntax_override[key])\n        result.update(user_config[key])\n"),
+]
+
+# Refactors that KEEP the properties: the checks must stay quiet on them (exit 0).
+# (name, properties to run, [(file, old, new), ...])
+EQUIVALENT = [
+    ('restore-text-via-helper-called-in-finally', ['C08'], [
+        ('emmet/markup/__init__.py',
+         "    finally:\n        config.user_config['text'] = text\n    return abbr",
+         "    finally:\n        _restore_text(config, text)\n    return abbr\n\n\ndef _restore_text(config, text):\n    _set_key(config.user_config, 'text', text)\n\n\ndef _set_key(d, k, v):\n    d[k] = v"),
+    ]),
+    ('restore-text-in-except-BaseException-and-reraise', ['C08'], [
+        ('emmet/markup/__init__.py',
+         "    finally:\n        config.user_config['text'] = text\n    return abbr",
+         "    except BaseException:\n        _put_back(config, text)\n        raise\n    _put_back(config, text)\n    return abbr\n\n\ndef _put_back(config, text):\n    config.user_config['text'] = text"),
+    ]),
+    ('comment-templates-memoised-by-text', ['C08', 'C13'], [
+        ('emmet/markup/format/comment.py', "from .template import template\n",
+         "from .template import template as _template\n\n_TEMPLATES = {}\n\n\ndef template(text):\n    if text not in _TEMPLATES:\n        _TEMPLATES[text] = _template(text)\n    return _TEMPLATES[text]\n"),
+    ]),
+    ('stylesheet-snippets-memoised-by-table-content', ['C08'], [
+        ('emmet/stylesheet/__init__.py',
+         "    if snippets is None:\n        snippets = convert_snippets(config.snippets)",
+         "    if snippets is None:\n        memo_key = tuple(sorted(config.snippets.items()))\n        if memo_key not in _CONVERTED:\n            _CONVERTED[memo_key] = convert_snippets(config.snippets)\n        snippets = _CONVERTED[memo_key]"),
+        ('emmet/stylesheet/__init__.py', "gradient_name = 'lg'\n", "gradient_name = 'lg'\n_CONVERTED = {}\n"),
+    ]),
+    ('newline-written-without-consulting-output-text', ['C13'], [
+        ('emmet/output_stream.py',
+         "        self.push('%s%s' % (newline, base_indent))\n        self.line += 1\n",
+         "        self._push('%s%s' % (newline, base_indent))\n        self.line += 1\n"),
+    ]),
+    ('tag-open-and-name-pushed-separately', ['C13'], [
+        ('emmet/markup/format/html.py', "        out.push_string('<%s' % name)\n", "        out.push_string('<')\n        out.push_string(name)\n"),
+    ]),
+    ('merged-data-as-a-loop-in-the-same-order', ['C20', 'C08'], [
+        ('emmet/config.py',
+         "    if key in type_defaults: result.update(type_defaults[key])\n    if key in syntax_defaults: result.update(syntax_defaults[key])\n    if key in type_override: result.update(type_override[key])\n    if key in syntax_override: result.update(syntax_override[key])\n",
+         "    for layer in (type_defaults, syntax_defaults, type_override, syntax_override):\n        if key in layer:\n            for k, v in layer[key].items():\n                result[k] = v\n"),
+    ]),
+    ('config-copies-nested-option-values', ['C20', 'C08', 'C13'], [
+        ('emmet/config.py', "    result.update(user_config.get(key, empty))\n\n    return result",
+         "    result.update(user_config.get(key, empty))\n\n    return {k: (list(v) if isinstance(v, list) else v) for k, v in result.items()}"),
+    ]),
+    ('bem-regexes-compiled-lazily-into-module-cache', ['C08'], [
+        ('emmet/markup/addon/bem.py', "def block_candidates1(class_name: str):\n    return re.match(r'^[a-z]-', class_name, re.I)",
+         "_RE = {}\n\n\ndef _rx(p):\n    if p not in _RE:\n        _RE[p] = re.compile(p, re.I)\n    return _RE[p]\n\n\ndef block_candidates1(class_name: str):\n    return _rx(r'^[a-z]-').match(class_name)"),
+    ]),
 ]
 
 PREAMBLE = {
@@ -163,6 +212,55 @@ def sensitivity(argv):
     return 1 if failed else 0
 
 
+def soundness(argv):
+    ap = argparse.ArgumentParser()
+    ap.add_argument('--only')
+    ap.add_argument('--runs', type=int, default=2500)
+    args = ap.parse_args(argv)
+    bad = 0
+    n = 0
+    for name, props, edits in EQUIVALENT:
+        if args.only and args.only not in name:
+            continue
+        tmp = tempfile.mkdtemp(prefix='emmet-eq-')
+        try:
+            shutil.copytree(os.path.join(REPO, 'emmet'), os.path.join(tmp, 'emmet'), ignore=shutil.ignore_patterns('__pycache__'))
+            ok_apply = True
+            for rel, old, new in edits:
+                path = os.path.join(tmp, rel)
+                src = open(path).read()
+                if old not in src:
+                    ok_apply = False
+                    break
+                open(path, 'w').write(src.replace(old, new, 1))
+            if not ok_apply:
+                print('REFACTOR %-55s does not apply any more: skipped' % name)
+                continue
+            # the refactored copy must still pass the repository's own tests
+            shutil.copytree(os.path.join(REPO, 'tests'), os.path.join(tmp, 'tests'), ignore=shutil.ignore_patterns('__pycache__'))
+            p = subprocess.run([sys.executable, '-m', 'pytest', '-q', '-p', 'no:cacheprovider', '-x'], cwd=tmp,
+                               stdout=subprocess.PIPE, stderr=subprocess.STDOUT, env=dict(os.environ, PYTHONPATH=tmp))
+            tail = p.stdout.decode('utf-8', 'replace').strip().splitlines()[-1:]
+            if p.returncode != 0:
+                print('REFACTOR %-55s breaks the test suite (%s): not a valid refactor, skipped' % (name, tail))
+                continue
+            env = {'VERIF_REPO': tmp, 'VERIF_EVIDENCE_DIR': os.path.join(tmp, 'evidence'),
+                   'VERIF_REPLAY_DIR': os.path.join(tmp, 'replays')}
+            for prop in props:
+                n += 1
+                code, out, secs = run_check([prop, '--runs', str(args.runs)], env)
+                status = 'quiet' if code == 0 else ('HARNESS-ERROR' if code == 2 else 'FALSE-ALARM')
+                if code != 0:
+                    bad += 1
+                print('REFACTOR %-55s %s %-12s exit=%d (%.0fs)' % (name, prop, status, code, secs), flush=True)
+                if code != 0:
+                    print(out[-2500:])
+        finally:
+            shutil.rmtree(tmp, ignore_errors=True)
+    print('soundness: %d checks on property-preserving refactors, %d alarms' % (n, bad))
+    return 1 if bad else 0
+
+
 def digest_of(out):
     m = re.search(r'digest ([0-9a-f]{16})', out)
     return m.group(1) if m else None
@@ -218,9 +316,11 @@ def determinism(argv):
 
 
 def main(argv):
-    if not argv or argv[0] not in ('determinism', 'sensitivity'):
+    if not argv or argv[0] not in ('determinism', 'sensitivity', 'soundness'):
         print(__doc__)
         return 2
     if argv[0] == 'determinism':
         return determinism(argv[1:])
+    if argv[0] == 'soundness':
+        return soundness(argv[1:])
     return sensitivity(argv[1:])
